@@ -47,7 +47,12 @@ def record(sc):
             from harness.symgraph import Sym
             wv = {x: Sym(["wv", x]) for x in g["wv"]} or None
             outs = [out_name(o) for o in g["outs"]]
-            res = m.generate(rec.bs, outs, with_values=wv, seed=sc.get("seed", 1))
+            from harness import symgraph
+            symgraph.EXPECT_META.update(submission_index=0, master_seed=sc.get("seed", 1), model_name="symg")
+            try:
+                res = m.generate(rec.bs, outs, with_values=wv, seed=sc.get("seed", 1))
+            finally:
+                symgraph.EXPECT_META.clear()
             tr["result"] = [term(res[n]) for n in outs]
     except Hang:
         tr["raised"] = "Hang"
@@ -89,6 +94,8 @@ def record_session(sc):
     for bi, wv in enumerate(ses["steps"]):
         rec.counts.clear()
         symgraph.EXPECT_BI[0] = bi
+        # compute() does not count as a submission; submit() numbers them from 0
+        symgraph.EXPECT_META.update(submission_index=(bi if ses["mode"] == "override" else 0), master_seed=sc.get("seed", 1), model_name="symg")
         tr = dict(nodes=g["nodes"], kind=g["kind"], pos=g["pos"], named=g["named"], obs=g["obs"], meta=g["meta"],
                   outs=g["outs"], wv=list(wv), raised="", result=[], counts={}, step=bi)
         try:
@@ -110,6 +117,7 @@ def record_session(sc):
             tr["exc"] = str(ex)[:200]
         finally:
             symgraph.EXPECT_BI[0] = 0
+            symgraph.EXPECT_META.clear()
         if tr["raised"]:
             tr["result"] = [["-"] for _ in tr["outs"]]
         tr["counts"] = {x: rec.counts.get(x, 0) for x in g["nodes"]}
